@@ -79,6 +79,14 @@ CHECKS["C12"] = ("exploration",
     "points for depth-first and best-first trees; sanitizer reports with an mlinsights frame count as violations.",
     "DESIGN.md §3 C12")
 
+CHECKS["C18"] = ("exploration",
+    "runtime monitors on the returned matrices (shape, [0,1], min<=mean<=max, DataFrame-vs-array under one seed, "
+    "labels, unit diagonal, input bytes) and a differential monitor of r2_score_comparable vs sklearn r2_score",
+    "Generated tables incl. constant, duplicated, collinear and integer columns under three models and 1-5 draws; "
+    "r2_score_comparable is compared with r2_score(f(y), g(p)) on all ordered pairs of six transforms, with "
+    "weights and multi-output.",
+    "DESIGN.md §3 C18")
+
 PENDING = {}
 
 
